@@ -679,7 +679,13 @@ class HostileWorld(MediaBase):
                 if frame is not None:
                     world.audio_decoded += 1
         self.a_receiver._track._queue = CountingQueue()
-        params = RTCRtpReceiveParameters(codecs=[codec], muxId="1", rtcp=RTCRtcpParameters(cname="sim", mux=True),
+        # (with an audio section every header extension aiortc knows is configured on the transport, so that each
+        #  extension's parser is reachable by a forged packet: ids 3..7 besides mid = 1 and abs-send-time = 2)
+        more = [RTCRtpHeaderExtensionParameters(id=i, uri=u) for i, u in (
+            (3, "urn:ietf:params:rtp-hdrext:ssrc-audio-level"), (4, "urn:ietf:params:rtp-hdrext:toffset"),
+            (5, "http://www.ietf.org/id/draft-holmer-rmcat-transport-wide-cc-extensions-01"),
+            (6, "urn:ietf:params:rtp-hdrext:sdes:rtp-stream-id"), (7, "urn:ietf:params:rtp-hdrext:sdes:repaired-rtp-stream-id"))]
+        params = RTCRtpReceiveParameters(codecs=[codec], muxId="1", rtcp=RTCRtcpParameters(cname="sim", mux=True), headerExtensions=more,
                                          encodings=[RTCRtpDecodingParameters(ssrc=AUDIO_SSRC, payloadType=codec.payloadType)])
         await self.loop.create_task(self.a_receiver.receive(params), context=pair.ctx["V"])
         self.audio_seq = 100
@@ -977,13 +983,25 @@ class HostileWorld(MediaBase):
             # one-byte form, ids 1 (mid) and 2 (abs-send-time) with wrong lengths
             el = r.choice([struct.pack("!B", (2 << 4) | r.choice([0, 1, 3, 15])) + rb(r.choice([0, 1, 2, 3])),
                            struct.pack("!B", (1 << 4) | 15) + rb(3), b"\x00\x00\x00\x00", struct.pack("!B", (15 << 4) | 2) + rb(3),
-                           struct.pack("!B", (2 << 4) | 2) + rb(1)])
+                           struct.pack("!B", (2 << 4) | 2) + rb(1),
+                           # every other known extension (ids 3..7) with a length its parser does not expect
+                           struct.pack("!B", (r.choice([3, 4, 5, 6, 7]) << 4) | r.choice([0, 1, 2, 3, 7, 15])) + rb(r.choice([0, 1, 2, 4, 16]))])
             el = pad4(el)
             ext = struct.pack("!HH", 0xBEDE, len(el) // 4) + el
             return rtp(b0=0x90, ext=ext, ssrc=r.choice([live, 77]), payload=rb(20)), False
         if cls == "rtp-ext-two-byte":
-            el = pad4(struct.pack("!BB", r.choice([1, 2, 0, 200]), r.choice([0, 1, 3, 4, 200])) + rb(r.choice([0, 2, 3])))
-            ext = struct.pack("!HH", r.choice([0x1000, 0x100F]), r.choice([len(el) // 4, 0])) + el
+            if r.random() < 0.5:
+                el = pad4(struct.pack("!BB", r.choice([1, 2, 3, 4, 5, 6, 7, 0, 200]), r.choice([0, 0, 1, 3, 4, 200])) + rb(r.choice([0, 2, 3])))
+            else:
+                # several elements in one block, in any order: mostly of the length their parser expects, some not
+                right = {1: 2, 2: 3, 3: 1, 4: 3, 5: 2, 6: 2, 7: 2}
+                ids = r.sample(sorted(right), r.choice([2, 3, 7]))
+                el = b""
+                for i in ids:
+                    n = right[i] if r.random() < 0.6 else r.choice([0, 0, 1, 2, 3, 4, 16])
+                    el += struct.pack("!BB", i, n) + rb(n)
+                el = pad4(el)
+            ext = struct.pack("!HH", r.choice([0x1000, 0x100F]), r.choice([len(el) // 4, len(el) // 4, 0])) + el
             return rtp(b0=0x90, ext=ext, ssrc=77, payload=rb(8)), False
         if cls == "rtp-padding-extremes":
             return rtp(b0=0xA0, ssrc=r.choice([77, live]), pt=r.choice([96, 5]), payload=rb(r.randrange(0, 6)) + bytes([r.choice([0, 1, 200, 255])])), False
